@@ -465,3 +465,90 @@ class RunOracle:
             if rn["ctrace"] != want_cleanups:
                 bad.append(("C04", "aggregated cleanup ran %s, expected %s" % (rn["ctrace"], want_cleanups)))
         return bad
+
+
+# ---- emission structure (C03/C04 projection) ---------------------------------------------------------
+
+def ir_emit(ix, fn):
+    """-> (canonical emit reply from the IR, direct-oracle problems [(prop, msg)])"""
+    u, inj = ix.u, ix.u.inj
+    body = fn["body"] or []
+    probs = []
+    cl_pos, err_of = {}, {}
+    pos = 0
+    toks = []
+    defined = []
+    zero_ok = {"v": lambda s: s.endswith("{}"), "p": lambda s: s == "nil", "i": lambda s: s == "nil", "s": lambda s: s == "nil"}
+    for k, st in enumerate(body):
+        if st["kind"] in ("call", "struct", "value", "field"):
+            if st["kind"] == "call":
+                lhs = st["lhs"]
+                nxt = body[k + 1] if k + 1 < len(body) else None
+                has_err = bool(len(lhs) > 1 and nxt and nxt["kind"] == "iferr" and nxt["cond"] == lhs[-1] + " != nil")
+                has_cl = len(lhs) == 3 or (len(lhs) == 2 and not has_err)
+                if has_cl:
+                    cl_pos[lhs[1]] = pos
+                if has_err:
+                    eb = nxt
+                    cls = [cl_pos.get(c, 999) for c in eb.get("cleanups") or []]
+                    ret = eb.get("ret") or []
+                    want_len = 1 + int(inj["cleanup"]) + 1
+                    if len(ret) != want_len:
+                        probs.append(("C03", "error branch of step %d returns %d values, expected %d" % (pos, len(ret), want_len)))
+                    else:
+                        if ret[-1] != lhs[-1]:
+                            probs.append(("C03", "error branch of step %d returns %s, not the error variable %s assigned by the failing call"
+                                          % (pos, ret[-1], lhs[-1])))
+                        if not zero_ok[inj["out"][0]](ret[0]):
+                            probs.append(("C03", "error branch of step %d returns %s, not the zero value of the result type" % (pos, ret[0])))
+                        if inj["cleanup"] and ret[1] != "nil":
+                            probs.append(("C03", "error branch of step %d returns a non-nil cleanup %s" % (pos, ret[1])))
+                    if eb.get("text"):
+                        probs.append(("C03", "error branch of step %d: %s" % (pos, eb["text"])))
+                    toks.append("eb:%d:[%s]:%d" % (pos, ",".join(map(str, cls)), int(len(ret) == 3)))
+            pos += 1
+        elif st["kind"] == "iferr":
+            prev = body[k - 1] if k > 0 else None
+            if not prev or prev["kind"] != "call":
+                probs.append(("C03", "error check not attached to a provider call"))
+    ret = [s for s in body if s["kind"] == "return"]
+    if len(ret) == 1:
+        r = ret[0]
+        if r.get("hasfunc"):
+            toks.append("closure:[%s]" % ",".join(str(cl_pos.get(c, 999)) for c in r.get("cleanups") or []))
+            if r.get("text"):
+                probs.append(("C04", r["text"]))
+        else:
+            toks.append("closure:none")
+        toks.append("retnil:%d" % int(inj["err"] and (r.get("ret") or [""])[-1] == "nil"))
+        if inj["cleanup"] and not r.get("hasfunc"):
+            probs.append(("C04", "injector declares a cleanup result but returns no closure"))
+    return " ".join(["ok"] + toks), probs
+
+
+def run_projection(ix, rn):
+    """canonical `run` reply from an observed execution"""
+    u = ix.u
+    idof = lambda name: name.split("Prov")[-1]
+    evs = []
+    failed = None
+    for ln in rn["trace"]:
+        m = re.match(r"call (\S+)\(.*\) -> (FAIL|#\d+)$", ln)
+        if m:
+            evs.append("call:" + idof(m.group(1)))
+            if m.group(2) == "FAIL":
+                failed = idof(m.group(1))
+            continue
+        m = re.match(r"cleanup (\S+) #\d+$", ln)
+        if m:
+            evs.append("cleanup:" + idof(m.group(1)))
+    if rn["err"] not in (None, "nil"):
+        oc = "failed:%s:%d" % (failed, int(rn["cleanup"] == "nil"))
+    else:
+        oc = "ok:closure" if rn["cleanup"] is not None else "ok:noclosure"
+    cl = []
+    for ln in rn["ctrace"]:
+        m = re.match(r"cleanup (\S+) #\d+$", ln)
+        if m:
+            cl.append("cleanup:" + idof(m.group(1)))
+    return " ".join(["run"] + evs + [oc, "|"] + cl)
